@@ -4,6 +4,9 @@ package main
 import (
 	"context"
 	"fmt"
+	"github.com/cloudflare/pint/verifharness/lib/pintbin"
+	"os"
+	"path/filepath"
 	"regexp"
 	"sort"
 	"strings"
@@ -312,12 +315,126 @@ func diff(want, got []string) (missing, extra []string) {
 	return missing, extra
 }
 
+// binaryFlags: the flags as the shipped command applies them (actionSetup). One run of the real binary per case;
+// the expected reports are the reports of the plain run filtered by reporter name.
+var binBaseline []pintbin.JSONReport
+
+func binRun(cfgExtra string, flags ...string) ([]pintbin.JSONReport, string) {
+	dir := pintbin.Scratch("c08bin")
+	defer os.RemoveAll(dir)
+	os.WriteFile(filepath.Join(dir, ".pint.hcl"), []byte(baseCfg+cfgExtra), 0o644)
+	os.WriteFile(filepath.Join(dir, "rules.yml"), []byte(rulesFile()), 0o644)
+	args := append([]string{"-c", ".pint.hcl", "-w", "4"}, flags...)
+	args = append(args, "lint", "--json", "out.json", "rules.yml")
+	res := pintbin.Run(dir, "out.json", nil, args...)
+	if res.Panicked {
+		return nil, "panic: " + res.Stderr
+	}
+	if !res.HasJSON {
+		return nil, "no JSON report: " + res.Stderr
+	}
+	return res.Reports, ""
+}
+
+func repKey(r pintbin.JSONReport) string {
+	return fmt.Sprintf("%s|%s|%s|%v", r.Reporter, r.Severity, r.Problem, r.Lines)
+}
+
+func binaryFlags(c *explore.Chooser) *explore.Case {
+	if binBaseline == nil {
+		b, herr := binRun("")
+		if herr != "" {
+			cs := &explore.Case{}
+			cs.Violate("harness:binary-baseline", herr, nil)
+			return cs
+		}
+		binBaseline = b
+	}
+	online := map[string]bool{}
+	for _, n := range checks.OnlineChecks {
+		online[n] = true
+	}
+	n := checks.CheckNames[c.Free(len(checks.CheckNames), "name")]
+	combo := c.Free(6, "flags")
+	var flags []string
+	cfgExtra := ""
+	keep := func(r pintbin.JSONReport) bool { return true }
+	isN := func(r pintbin.JSONReport) bool { return r.Reporter == n }
+	switch combo {
+	case 0:
+		flags = []string{"--enabled", n}
+		keep = func(r pintbin.JSONReport) bool { return isN(r) || unconditional[r.Reporter] }
+	case 1:
+		flags = []string{"--offline", "--enabled", n}
+		keep = func(r pintbin.JSONReport) bool { return (isN(r) && !online[n]) || unconditional[r.Reporter] }
+	case 2:
+		flags = []string{"--disabled", n}
+		keep = func(r pintbin.JSONReport) bool { return !isN(r) }
+	case 3:
+		flags = []string{"--offline", "--disabled", n}
+		keep = func(r pintbin.JSONReport) bool { return !isN(r) && !online[r.Reporter] }
+	case 4:
+		flags = []string{"--offline"}
+		cfgExtra = "\nchecks {\n  enabled = [\"" + n + "\"]\n}\n"
+		keep = func(r pintbin.JSONReport) bool { return (isN(r) && !online[n]) || unconditional[r.Reporter] }
+	case 5:
+		flags = []string{"--enabled", n, "--disabled", n}
+		keep = func(r pintbin.JSONReport) bool { return unconditional[r.Reporter] }
+	}
+	input := map[string]any{"flags": strings.Join(flags, " "), "config_extra": cfgExtra}
+	cs := &explore.Case{Input: input, Key: fmt.Sprint(flags, cfgExtra), Outcome: "binary"}
+	got, herr := binRun(cfgExtra, flags...)
+	if herr != "" {
+		cs.Violate("binary: run failed flags="+[]string{"enabled", "offline+enabled", "disabled", "offline+disabled", "offline+checks{enabled}", "enabled+disabled"}[combo], herr, input)
+		return cs
+	}
+	want := map[string]int{}
+	for _, r := range binBaseline {
+		if keep(r) {
+			want[repKey(r)]++
+		}
+	}
+	have := map[string]int{}
+	for _, r := range got {
+		have[repKey(r)]++
+	}
+	var missing, extra []string
+	for k, v := range want {
+		if have[k] < v {
+			missing = append(missing, k)
+		}
+	}
+	extraReporters := map[string]bool{}
+	for _, r := range got {
+		k := repKey(r)
+		if have[k] > want[k] {
+			extra = append(extra, k)
+			extraReporters[r.Reporter] = true
+		}
+	}
+	if len(missing)+len(extra) > 0 {
+		var er []string
+		for r := range extraReporters {
+			er = append(er, r)
+		}
+		sort.Strings(er)
+		sort.Strings(missing)
+		sort.Strings(extra)
+		if len(er) > 3 {
+			er = append(er[:3], "...")
+		}
+		cs.Violate(fmt.Sprintf("binary: %s online-name=%v extra-reporters=%v missing=%v", []string{"enabled", "offline+enabled", "disabled", "offline+disabled", "offline+checks{enabled}", "enabled+disabled"}[combo], online[n], er, len(missing) > 0),
+			fmt.Sprintf("pint %s: reports that should be there are missing: %v; reports that should not be there: %v", strings.Join(flags, " "), missing, extra), input)
+	}
+	return cs
+}
+
 func main() {
 	explore.Main(&explore.Config{
 		Property: "C08", Level: "exploration",
-		Rule: "config enabling every configurable check kind + an unreachable Prometheus (every online check then reports under its own name) + a 17-rule file + a removed provider rule; for every name in checks.CheckNames x {checks{disabled}, --disabled, rule{disable}, --enabled, checks{enabled}, rule{enable} over checks{disabled}} (thorough: all ordered pairs of names), 4 --disabled regexps, and --offline: the report multiset must equal the baseline filtered by reporter name. distinct = (mechanism, names)",
+		Rule: "config enabling every configurable check kind + an unreachable Prometheus (every online check then reports under its own name) + a 17-rule file + a removed provider rule; for every name in checks.CheckNames x {checks{disabled}, --disabled, rule{disable}, --enabled, checks{enabled}, rule{enable} over checks{disabled}} (thorough: all ordered pairs of names), 4 --disabled regexps, and --offline: the report multiset must equal the baseline filtered by reporter name. distinct = (mechanism, names); space binary-flags: every check name x {--enabled, --offline --enabled, --disabled, --offline --disabled, --offline with checks{enabled}, --enabled with --disabled} through the real binary, reports compared with the plain run filtered by reporter name",
 		Assumptions: []string{
-			"CLI switches are applied exactly as actionSetup does (SetDisabledChecks, Checks.Enabled, DisableOnlineChecks)",
+			"space switches: CLI switches are applied the way actionSetup does (SetDisabledChecks, Checks.Enabled, DisableOnlineChecks); space binary-flags runs the real binary, so actionSetup itself is covered there",
 			"entries are marked modified / removed and run under the ci command so that rule/dependency has a baseline report",
 		},
 		Spaces: []*explore.Space{{Name: "switches", Body: body, Bound: func(t string) int {
@@ -325,7 +442,7 @@ func main() {
 				return 1
 			}
 			return 0
-		}}},
+		}}, {Name: "binary-flags", Body: binaryFlags, Bound: func(string) int { return -1 }}},
 		BudgetS: func(t string) int { return 900 },
 		Finish: func(tier string, agg *explore.Aggregate) ([]explore.Violation, string) {
 			have := agg.Sets["reporters_in_baseline"]
